@@ -361,8 +361,17 @@ async fn client_tcp(k: Arc<Kernel>, plan: Arc<PlanB>, sh: Sh, qi: usize, bytes: 
             return;
         }
     };
-    let mut frame = (bytes.len() as u16).to_be_bytes().to_vec();
+    let mut frame = q.tcp_prefix.unwrap_or(bytes.len() as u16).to_be_bytes().to_vec();
     frame.extend_from_slice(&bytes);
+    if q.tcp_prefix.is_some() {
+        /* hostile framing: write, wait a little, hang up */
+        let _ = s.write_all(&frame).await;
+        tokio::time::sleep(Duration::from_millis(300)).await;
+        s.shutdown_write();
+        tokio::time::sleep(Duration::from_millis(300)).await;
+        sh.lock().unwrap().tcp_done[qi] = Some("hostile framing sent".into());
+        return;
+    }
     let mut off = 0;
     for n in &q.tcp_split {
         let end = (off + n).min(frame.len());
